@@ -200,12 +200,16 @@ func H18aT() { h18a(vxString(3), vxLangs[vxChoice(len(vxLangs))]) }
 func H18tmpl() {
 	lang := []language.Language{language.C, language.Go, language.Swift, language.Python, language.Shell, language.Haskell, language.HTML}[vxChoice(7)]
 	var lexemes []string
-	lexemes = append(lexemes, "\"s\"", "'c'", "\"\"")
+	lexemes = append(lexemes, "\"s\"", "'c'", "\"\"", "\"a\\\"b\"", "'\\''", "`r`", "`\\`", "`a\\`")
 	if st := lang.MultilineCommentStart(); st != "" {
 		lexemes = append(lexemes, st+"m"+lang.MultilineCommentEnd(), st+lang.MultilineCommentEnd(), st+"a\nb"+lang.MultilineCommentEnd())
 	}
 	if st := lang.SingleLineCommentStart(); st != "" {
 		lexemes = append(lexemes, st+"x\n")
+	}
+	if st, en := lang.MultilineCommentStart(), lang.MultilineCommentEnd(); st != "" {
+		// nesting two and three levels deep (only Swift nests; the others end at the first terminator)
+		lexemes = append(lexemes, st+st+st+en+en+en, st+" a "+st+" b "+st+" c "+en+" b "+en+" a "+en, st+st+en+st+en+en)
 	}
 	lx := lexemes[vxChoice(len(lexemes))]
 	h18a(vxString(1)+lx+vxString(2), lang)
